@@ -1442,10 +1442,19 @@ def guard_function(node, fspec, qual):
             elif isinstance(st, (ast.FunctionDef, ast.AsyncFunctionDef, ast.ClassDef)):
                 walk(st.body, [("block", None)])
     walk(node.body, [])
-    if len(found) != 1:
-        raise Unsupported("guard mode: the statement `%s` occurs %d times in the function (exactly one expected)"
-                          % (target, len(found)), node, qual)
-    path = found[0]
+    occ = fspec.get("occurrence")
+    if occ is None:
+        if len(found) != 1:
+            raise Unsupported("guard mode: the statement `%s` occurs %d times in the function (exactly one expected)"
+                              % (target, len(found)), node, qual)
+        path = found[0]
+    else:
+        # "occurrence": [k, n] = the k-th (from 0, source order) of exactly n occurrences
+        k, total = occ
+        if len(found) != total:
+            raise Unsupported("guard mode: the statement `%s` occurs %d times in the function (%d expected)"
+                              % (target, len(found), total), node, qual)
+        path = found[k]
     if any(pol is None for _, pol in path):
         raise Unsupported("guard mode: the statement `%s` sits under a while / with / try / nested def" % target, node, qual)
     body = [ast.Return(value=ast.Constant(value=True))]
